@@ -197,6 +197,13 @@ Proof. rewrite map_map. simpl. apply map_id. Qed.
 Lemma sp_idle_dec x : {sp x = SIdle} + {sp x <> SIdle}.
 Proof. destruct (sp x); [left; reflexivity|right; discriminate..]. Qed.
 
+(* the only guard the invariant needs: the disown goroutine does not meet a child whose stop is in flight *)
+Definition disown_ok (s : st) (l : label) : bool :=
+  match l with
+  | LDisownTest a c => match sp (acts s c) with SIdle => true | _ => false end
+  | _ => true
+  end.
+
 (* ---------------------------------------------------------------- one case per label *)
 Section Steps.
 Variable ws : bool.
@@ -244,7 +251,7 @@ Proof.
 Qed.
 
 Lemma step_DisownTest s a c s' :
-  inv s -> inv_g s -> ws = true \/ step_ok s (LDisownTest a c) = true ->
+  inv s -> inv_g s -> ws = true \/ disown_ok s (LDisownTest a c) = true ->
   step ws s (LDisownTest a c) = Some s' -> inv s' /\ inv_g s'.
 Proof.
   intros I G Hguard. unfold step. destruct (sp (acts s a)) as [| |p|] eqn:Esp; try discriminate.
@@ -350,13 +357,13 @@ Lemma step_SpawnCheck s p c s' :
 Proof.
   intros I G. unfold step. destruct (par (acts s c)) eqn:Epar; try discriminate.
   destruct (ph (acts s c)) eqn:Eph; try discriminate.
-  destruct (is_running (acts s p) && negb (started (acts s c)) && negb (c =? 0) && negb (c =? p)) eqn:E; [|discriminate].
+  destruct (is_running (acts s p) && negb (started (acts s c)) && negb (c =? 0) && negb (c =? p) && match StopModel.ph (acts s p) with None => true | Some _ => false end) eqn:E; [|discriminate]. apply andb_true_iff in E as [E Ephp].
   intros [= <-].
   apply andb_true_iff in E as [E Ecp]. apply andb_true_iff in E as [E Ec0]. apply andb_true_iff in E as [Erp Est].
   apply negb_true_iff in Est. apply negb_true_iff, Nat.eqb_neq in Ecp.
   pose proof (inv_pa _ I c) as Pc. old Pc.
   assert (Hnd : ~ done_ (trace s) c) by (intros Hd; apply O5 in Hd; destruct Hd; congruence).
-  set (xc := Actor false false false SIdle (Some p) (Some Checked) 0 false [] []).
+  set (xc := Actor false false false SIdle (Some p) (Some Checked) [] false [] []).
   set (s1 := St (upd (acts s) c xc) (trace s) (term s)).
   assert (I1 : inv s1).
   { apply inv_upd1; simpl; auto; [|congruence].
@@ -366,7 +373,7 @@ Proof.
       assert (running (acts s c) = true) by (apply O3; congruence). rewrite O12 in Est; congruence. }
   assert (G1 : inv_g s1).
   { apply inv_g_upd1; auto. split; simpl; intros; try discriminate; try contradiction. }
-  assert (Hcore : forall c0, same_core (acts s1 c0) (upd (upd (acts s) c xc) p (set_spawning (acts s p) (S (spawning (acts s p)))) c0)).
+  assert (Hcore : forall c0, same_core (acts s1 c0) (upd (upd (acts s) c xc) p (set_spawning (acts s p) (c :: spawning (acts s p))) c0)).
   { intros c0. simpl. destruct (Nat.eq_dec c0 p) as [->|Hne].
     - rewrite upd_same, upd_other by auto. unfold same_core; simpl; tauto.
     - rewrite (upd_other _ p) by assumption. apply same_core_refl. }
@@ -428,7 +435,7 @@ Proof.
 Qed.
 
 Lemma inv_step s l s' :
-  inv s -> inv_g s -> ws = true \/ step_ok s l = true -> step ws s l = Some s' -> inv s' /\ inv_g s'.
+  inv s -> inv_g s -> ws = true \/ disown_ok s l = true -> step ws s l = Some s' -> inv s' /\ inv_g s'.
 Proof.
   intros I G Hg H. destruct l.
   - eapply step_StopBegin; eauto.
@@ -547,13 +554,13 @@ Lemma step_SpawnCheck_u s p c s' :
 Proof.
   intros I. unfold step. destruct (par (acts s c)) eqn:Epar; try discriminate.
   destruct (ph (acts s c)) eqn:Eph; try discriminate.
-  destruct (is_running (acts s p) && negb (started (acts s c)) && negb (c =? 0) && negb (c =? p)) eqn:E; [|discriminate].
+  destruct (is_running (acts s p) && negb (started (acts s c)) && negb (c =? 0) && negb (c =? p) && match StopModel.ph (acts s p) with None => true | Some _ => false end) eqn:E; [|discriminate]. apply andb_true_iff in E as [E Ephp].
   intros [= <-].
   apply andb_true_iff in E as [E Ecp]. apply andb_true_iff in E as [E Ec0]. apply andb_true_iff in E as [Erp Est].
   apply negb_true_iff in Est. apply negb_true_iff, Nat.eqb_neq in Ecp.
   pose proof (inv_pa _ I c) as Pc. old Pc.
   assert (Hnd : ~ done_ (trace s) c) by (intros Hd; apply O5 in Hd; destruct Hd; congruence).
-  set (xc := Actor false false false SIdle (Some p) (Some Checked) 0 false [] []).
+  set (xc := Actor false false false SIdle (Some p) (Some Checked) [] false [] []).
   set (s1 := St (upd (acts s) c xc) (trace s) (term s)).
   assert (I1 : inv s1).
   { apply inv_upd1; simpl; auto; [|congruence].
@@ -561,7 +568,7 @@ Proof.
     + apply O7 in H; congruence.
     + destruct (O8 H) as [Hs|?]; [|contradiction].
       assert (running (acts s c) = true) by (apply O3; congruence). rewrite O12 in Est; congruence. }
-  assert (Hcore : forall c0, same_core (acts s1 c0) (upd (upd (acts s) c xc) p (set_spawning (acts s p) (S (spawning (acts s p)))) c0)).
+  assert (Hcore : forall c0, same_core (acts s1 c0) (upd (upd (acts s) c xc) p (set_spawning (acts s p) (c :: spawning (acts s p))) c0)).
   { intros c0. simpl. destruct (Nat.eq_dec c0 p) as [->|Hne].
     - rewrite upd_same, upd_other by auto. unfold same_core; simpl; tauto.
     - rewrite (upd_other _ p) by assumption. apply same_core_refl. }
@@ -639,10 +646,13 @@ End Steps.
 (* guarded reachability: every step is race-free, or the disown test is the repaired one *)
 Inductive reach_g (ws : bool) : st -> Prop :=
 | reach_g_init : reach_g ws init
-| reach_g_step s l s' : reach_g ws s -> (ws = true \/ step_ok s l = true) -> step ws s l = Some s' -> reach_g ws s'.
+| reach_g_step s l s' : reach_g ws s -> (ws = true \/ disown_ok s l = true) -> step ws s l = Some s' -> reach_g ws s'.
+
+Lemma step_ok_disown s l : step_ok s l = true -> disown_ok s l = true.
+Proof. destruct l; simpl; auto. Qed.
 
 Lemma reach_rf_g ws s : reach_rf ws s -> reach_g ws s.
-Proof. induction 1; [constructor|econstructor; eauto]. Qed.
+Proof. induction 1; [constructor|econstructor; eauto using step_ok_disown]. Qed.
 Lemma reach_fixed_g s : reach true s -> reach_g true s.
 Proof. induction 1; [constructor|econstructor; eauto]. Qed.
 
@@ -753,7 +763,7 @@ Proof.
   - destruct (sp (acts s a0)) eqn:E; try discriminate.
     injection Hs as <-. simpl. destruct (Nat.eq_dec a a0) as [->|]; [now rewrite upd_same|now rewrite upd_other].
   - destruct (par (acts s c)) eqn:Ep; try discriminate. destruct (ph (acts s c)) eqn:Eh; try discriminate.
-    destruct (is_running (acts s p) && negb (started (acts s c)) && negb (c =? 0) && negb (c =? p)) eqn:E; [|discriminate].
+    destruct (is_running (acts s p) && negb (started (acts s c)) && negb (c =? 0) && negb (c =? p) && match StopModel.ph (acts s p) with None => true | Some _ => false end) eqn:E; [|discriminate]. apply andb_true_iff in E as [E Ephp].
     injection Hs as <-. simpl.
     apply andb_true_iff in E as [E _]. apply andb_true_iff in E as [E _]. apply andb_true_iff in E as [_ Est].
     apply negb_true_iff in Est.
